@@ -1,5 +1,5 @@
 (** * C13 — while trading is disabled nothing trades and market orders are rejected *)
-From Bourse Require Import Model.Types Model.Side Model.Book Model.Obs Model.Rng Model.Env Proofs.NoTrade Proofs.MarketNoTrade.
+From Bourse Require Import Model.Types Model.Side Model.Book Model.Obs Model.Rng Model.Env Spec.RefBook Proofs.NoTrade Proofs.MarketNoTrade Proofs.Refine Proofs.Volumes Proofs.FlagRef.
 
 Theorem c13_no_trade_when_off : forall s o s' x,
   b_trading s = false -> step_raw s o = Ok (s', x) ->
@@ -51,6 +51,27 @@ Theorem c13_market_switch_only_flags : forall L e g (sw : bool) e' g' x,
   Forall2 (fun b b' => b' = set_trading b sw) (en_market e) (en_market e').
 Proof. exact market_switch_only_flags. Qed.
 
+(** Only the two switches change the flag (and only [set_time] the clock, nothing the tick size):
+    one operation, and every history from a new book - snapshot reloads included. *)
+Theorem c13_only_switches_change_flag : forall s o s' x,
+  Inv s -> op_u32 o -> step_raw s o = Ok (s', x) ->
+  (b_t s', b_tick s', b_trading s') = cfg_after o (b_t s, b_tick s, b_trading s).
+Proof. exact step_raw_cfg. Qed.
+
+Theorem c13_flag_is_last_switch : forall t0 tick tr s0 ops s xs,
+  book_new t0 tick tr = Ok s0 -> Forall op_u32 ops -> run_outs s0 ops = Ok (s, xs) ->
+  b_trading s = last_switch ops tr.
+Proof. exact run_flag. Qed.
+
+(** Once trading is enabled again - whatever the book looks like by then, crossed or not - the
+    next operation is the reference engine's on the same order table, queues and log with the flag
+    on: an arriving or re-priced order matches against the resting book by the usual rules. *)
+Theorem c13_after_enable_usual_rules : forall s s1 x1 o s2 x2,
+  Inv s -> op_u32 o -> step_raw s OEnable = Ok (s1, x1) -> step_raw s1 o = Ok (s2, x2) ->
+  ref_step (mkRef (b_t s) (b_tick s) (b_tvol s) (tbl s) (qof (b_bid s)) (qof (b_ask s)) (b_trades s) true) o
+  = Some (abs s2, x2) /\ Inv s2.
+Proof. exact after_enable_usual_rules. Qed.
+
 Check c13_no_trade_when_off : forall s o s' x,
   b_trading s = false -> step_raw s o = Ok (s', x) ->
   b_trades s' = b_trades s /\ b_tvol s' = (match o with OResetTvol => 0 | _ => b_tvol s end).
@@ -70,4 +91,7 @@ Print Assumptions c13_market_rejected.
 Print Assumptions c13_limit_rests.
 Print Assumptions c13_toggle_changes_nothing_else.
 Print Assumptions c13_step_no_trade_when_off.
+Print Assumptions c13_only_switches_change_flag.
+Print Assumptions c13_flag_is_last_switch.
+Print Assumptions c13_after_enable_usual_rules.
 Print Assumptions c13_market_switch_only_flags.
